@@ -244,6 +244,15 @@ def search(ctx):
         v = stmt_uniform(rd, int(rng.integers(3, 400)), 10 ** rng.uniform(-3, -1))
         if v: V.append(v)
         ctx.count("search_cases")
+    # finely resolved, smoothly stretched grids (strictly increasing from 0, spacings from nm to mm)
+    for R in (1e-2, 1e-3, 1e-4, 1e-5):
+        for n in (50, 400, 2500):
+            for pw in (1.0, 1.02, 1.3, 2.0):
+                r = R * (np.arange(n + 1) / n) ** pw
+                V += stmt_fd(rd, r)
+                ctx.count("search_cases")
+        if len(V) > 10:
+            break
     c, ratios = stmt_convergence(rd)
     ctx.cov["refinement_ratios"] = ratios
     V += c
